@@ -1,6 +1,8 @@
 // h_aux.cpp - C16: auxiliary keys as an insertion-ordered string map that survives serialisation.
 // Random histories of write/overwrite/remove/lookup/typed reads (C++ and C interface) interleaved with FITS round trips
 // are replayed against a 20-line model; LeakSanitizer runs per history.
+#include <climits>
+#include <cerrno>
 #include "vf_spec.h"
 #include <photospline/cinter/splinetable.h>
 
@@ -92,7 +94,7 @@ static void run_C16(const Args &a, long cs) {
 		switch (kind) {
 		case 0: case 1: case 2: case 3: case 4: { // write_key<int|double|string> (C++), or via C
 			int vt = (int)r.below(3); std::string sval; bool viaC = kind == 4 && vt != 2;
-			int iv = (int)r.below(2000001) - 1000000; if (r.coin(0.1)) iv = r.coin(0.5) ? 2147483647 : -2147483647 - 1; double dv = (r.U() - 0.5) * std::pow(10.0, (double)r.range(-30, 30)); if (r.coin(0.1)) dv = (double)(long)(dv);
+			int iv = (int)r.below(2000001) - 1000000; if (r.coin(0.1)) iv = r.coin(0.5) ? 2147483647 : -2147483647 - 1; double dv = (r.U() - 0.5) * std::pow(10.0, (double)r.range(-30, 30)); if (r.coin(0.1)) dv = (double)(long)(dv); if (r.coin(0.06)) { static const double nf[] = {INFINITY, -INFINITY, NAN}; dv = nf[r.below(3)]; }
 			if (vt == 0) sval = std::to_string(iv); else if (vt == 1) { std::ostringstream ss; ss << dv; sval = ss.str(); } else sval = gen_strvalue(r, key);
 			Model before = M; bool threw = false; std::string what;
 			phase_log(viaC ? "C:splinetable_write_key" : "write_key");
@@ -126,8 +128,15 @@ static void run_C16(const Args &a, long cs) {
 			if (!bs || rtrim(sv) != rtrim(mv)) viol("C16:read_key<string>:differs-from-stored-string", kj);
 			if (!cg || rtrim(cg) != rtrim(mv)) viol("C16:C:splinetable_get_key:differs-from-stored-string", kj);
 			// the value denoted by the stored string, parsed the way the stream extraction defines it
-			{ std::istringstream ss(mv); int want; ss >> want; bool ok = !ss.fail(); if (bi != ok || (ok && iv != want)) viol("C16:read_key<int>:differs-from-value-denoted-by-stored-string", kj); if ((rci == 0) != ok || (ok && civ != want)) viol("C16:C:splinetable_read_key(int):differs-from-C++", kj); }
-			{ char *e = nullptr; double want = strtod(mv.c_str(), &e); bool ok = e != mv.c_str(); if (ok && bd && !(dv == want || (std::isnan(dv) && std::isnan(want)))) viol("C16:read_key<double>:differs-from-strtod-of-stored-string", kj); if (bd && (rcd != 0 || !(cdv == dv || (std::isnan(cdv) && std::isnan(dv))))) viol("C16:C:splinetable_read_key(double):differs-from-C++", kj); }
+			// the value denoted by the stored string, defined independently of stream extraction: the whole string (FITS padding aside) must be a literal of the
+			// requested type. An integer read of "3e+06" or "12 monkeys" may fail, but may not succeed with 3 or 12.
+			std::string tv = rtrim(mv); { size_t q = 0; while (q < tv.size() && tv[q] == ' ') q++; tv = tv.substr(q); }
+			{ char *e = nullptr; errno = 0; long want = strtol(tv.c_str(), &e, 10); bool lit = !tv.empty() && e == tv.c_str() + tv.size() && errno == 0 && want >= INT_MIN && want <= INT_MAX && !isspace((unsigned char)tv[0]);
+			  if (bi && (!lit || iv != (int)want)) viol("C16:read_key<int>:succeeds-with-a-value-the-stored-string-does-not-denote", kj); if (lit && !bi) viol("C16:read_key<int>:fails-on-an-integer-literal", kj);
+			  if ((rci == 0) != bi || (bi && civ != iv)) viol("C16:C:splinetable_read_key(int):differs-from-C++", kj); count(lit ? "typed-reads:int-literal" : "typed-reads:int-of-non-integer"); }
+			{ char *e = nullptr; double want = strtod(tv.c_str(), &e); bool lit = !tv.empty() && e == tv.c_str() + tv.size();
+			  if (bd && (!lit || !(dv == want || (std::isnan(dv) && std::isnan(want))))) viol("C16:read_key<double>:succeeds-with-a-value-the-stored-string-does-not-denote", kj); if (lit && !bd) viol(std::string("C16:read_key<double>:fails-on-a-number:") + (std::isfinite(want) ? "finite" : "non-finite"), kj);
+			  if ((rcd == 0) != bd || (bd && !(cdv == dv || (std::isnan(cdv) && std::isnan(dv))))) viol("C16:C:splinetable_read_key(double):differs-from-C++", kj); }
 			break; }
 		case 8: { // lookups of everything
 			compare(*T, M, hist, "periodic full comparison"); count("ops:scan"); break; }
